@@ -226,3 +226,77 @@ Proof.
     intros [|[|n]] H; [vm_compute; auto with arith ..|]. exfalso. cbn [length] in H. lia.
   - intros [|[|n]] H; [split; [discriminate|reflexivity] ..|]. exfalso. cbn [length] in H. lia.
 Qed.
+
+(* ================================================================================================== *)
+(* SOURCE TIE (TENSOR code): the Python text of `_get_padding_buffers` and `pad_variable`                *)
+(* (src/pydrobert/torch/_pad.py), translated by harness/py2coq to the MiniPy terms                       *)
+(* PV.Gen.C09Src.gpb_body / pad_variable_body (regenerated from the working tree on every run) and       *)
+(* interpreted by PV.MiniPy.Interp with every torch call given the meaning defined in                    *)
+(* PV.MiniTorch.OpsC09 (SrcRun.ext09g; SrcRun.ext09 adds the call of _get_padding_buffers, which          *)
+(* interprets the other body), computes the model's functions - for ALL inputs:                          *)
+(*   x = N rows of T cells of F >= 1 payload values (arbitrary MiniPy values: the code only moves them), *)
+(*   lens <= T, any pad amounts, every mode, any fill value.                                             *)
+(* Trusted: translator, Interp, OpsC09, ext09, the encodings of SrcRun.v (eager semantics; TorchScript,  *)
+(* dtypes, devices, strides are not modelled) - exercised against torch on the cases of every run        *)
+(* (source_tie in harness/props/c09.py, SrcRun.src_pad_variable_check).  notes/C09_tie_report.md.        *)
+(* ================================================================================================== *)
+From PV Require MiniPy.Syntax MiniPy.Interp MiniTorch.OpsC09 Gen.C09Src C09.SrcRun C09.TieModel C09.Tie.
+
+(* _get_padding_buffers, every mode: the interpreted source returns the pair of payload tensors whose data are the
+   model's two flat buffers of cells, concatenated (1-dimensional tensors; in constant mode x itself, twice), and
+   raises NotImplementedError / RuntimeError / ValueError exactly where the model reports them (reflect pad >= len,
+   replicate len < 1, empty batch, unknown mode) *)
+Theorem c09_source_padding_buffers_is_model : forall (T F : nat) (md : mode) (x : list (list (list Syntax.val)))
+    (lens pl pr : list nat) (d : list Syntax.val),
+  Tie.wf_x T F x -> (forall n, n < length x -> nth n lens 0 <= T) ->
+  length lens = length x -> length pl = length x -> length pr = length x ->
+  exists st,
+    Interp.run SrcRun.ext09g C09Src.gpb_body
+      (SrcRun.gpb_vars (OpsC09.enc_p (SrcRun.x_tensor T F x)) (OpsC09.enc_i (SrcRun.vec_tensor lens))
+         (OpsC09.enc_i (SrcRun.vec_tensor pl)) (OpsC09.enc_i (SrcRun.vec_tensor pr)) (SrcRun.mode_val md))
+    = match get_padding_buffers p_cells p_len p_l p_r T d md (zip_prows x lens pl pr) with
+      | Ok bufs => Interp.Ok (Tie.gpb_value md (length x) T F bufs) st
+      | e => Interp.Exc (Tie.exc_of e) st
+      end.
+Proof. exact Tie.padding_buffers_tie. Qed.
+Print Assumptions c09_source_padding_buffers_is_model.
+
+(* pad_variable, every mode, the shape checks included (lens / pad of the wrong length: ValueError): the interpreted
+   source returns the (N, T', F) tensor of the model's rows - every cell, also after the valid part - and raises
+   exactly where the model reports an error (masked_scatter with too short a source included) *)
+Theorem c09_source_pad_variable_is_model : forall (T F : nat) (value : Syntax.val) (md : mode)
+    (x : list (list (list Syntax.val))) (lens pl pr : list nat) (d : list Syntax.val),
+  0 < F -> Tie.wf_x T F x -> (forall n, n < length x -> nth n lens 0 <= T) -> length pr = length pl ->
+  exists st,
+    Interp.run SrcRun.ext09 C09Src.pad_variable_body
+      (SrcRun.pv_vars (OpsC09.enc_p (SrcRun.x_tensor T F x)) (OpsC09.enc_i (SrcRun.vec_tensor lens))
+         (OpsC09.enc_i (SrcRun.pad_tensor pl pr)) (SrcRun.mode_val md) value)
+    = match pad_variable T d (repeat value F) md x lens pl pr with
+      | Ok out => Interp.Ok (OpsC09.enc_p (SrcRun.rows_tensor (Tie.pad_width x lens pl pr) F out)) st
+      | e => Interp.Exc (Tie.exc_of e) st
+      end.
+Proof. exact Tie.pad_variable_tie. Qed.
+Print Assumptions c09_source_pad_variable_is_model.
+
+(* composed with c09_pad_variable_correct - a statement purely about the interpreted source: on a legal non-empty
+   batch it returns an (N, T', F) tensor whose row n is
+       left padding ++ x[n, :lens[n]] ++ right padding ++ fill value up to T'
+   where the paddings are those of the standard constant / reflect / replicate rule applied to that sequence alone
+   (Buffers.lpart / rpart: the two sides of Spec.pad1) *)
+Theorem c09_source_pad_variable_rows : forall (T F : nat) (value : Syntax.val) (md : mode)
+    (x : list (list (list Syntax.val))) (lens pl pr : list nat),
+  0 < F -> Tie.wf_x T F x -> inputs_ok T md x lens pl pr ->
+  exists Tp out st,
+    Interp.run SrcRun.ext09 C09Src.pad_variable_body
+      (SrcRun.pv_vars (OpsC09.enc_p (SrcRun.x_tensor T F x)) (OpsC09.enc_i (SrcRun.vec_tensor lens))
+         (OpsC09.enc_i (SrcRun.pad_tensor pl pr)) (SrcRun.mode_val md) value)
+    = Interp.Ok (OpsC09.enc_p (SrcRun.rows_tensor Tp F out)) st
+    /\ length out = length x
+    /\ forall n, n < length x ->
+         let s := firstn (nth n lens 0) (nth n x []) in
+         let fill := repeat value F in
+         let new := nth n lens 0 + (nth n pl 0 + nth n pr 0) in
+         new <= Tp /\
+         nth n out [] = lpart md fill (nth n pl 0) s ++ s ++ rpart md fill (nth n pr 0) s ++ repeat fill (Tp - new).
+Proof. exact Tie.source_pad_variable_rows. Qed.
+Print Assumptions c09_source_pad_variable_rows.
